@@ -25,8 +25,15 @@ pub enum Case {
 fn tuple_consistent(ops: &[DiffOp]) -> Result<(), String> {
     for op in ops {
         let (tag, o, n) = op.as_tag_tuple();
-        if op.tag() != tag || op.old_range() != o || op.new_range() != n {
-            return Err(format!("{:?}: tag()/old_range()/new_range() disagree with as_tag_tuple()", op));
+        // expected from the op's own fields (an empty range starts at the carried index)
+        let want = match *op {
+            DiffOp::Equal { old_index, new_index, len } => (similar::DiffTag::Equal, old_index..old_index + len, new_index..new_index + len),
+            DiffOp::Delete { old_index, old_len, new_index } => (similar::DiffTag::Delete, old_index..old_index + old_len, new_index..new_index),
+            DiffOp::Insert { old_index, new_index, new_len } => (similar::DiffTag::Insert, old_index..old_index, new_index..new_index + new_len),
+            DiffOp::Replace { old_index, old_len, new_index, new_len } => (similar::DiffTag::Replace, old_index..old_index + old_len, new_index..new_index + new_len),
+        };
+        if (tag, o.clone(), n.clone()) != want || op.tag() != want.0 || op.old_range() != want.1 || op.new_range() != want.2 {
+            return Err(format!("{:?}: as_tag_tuple()/tag()/old_range()/new_range() = {:?}, the fields say {:?}", op, (tag, o, n), want));
         }
     }
     Ok(())
